@@ -385,7 +385,7 @@ func (s *c12Scn) step(sl *c12Slot) {
 	switch r.rng.Intn(4) {
 	case 0:
 		if it.goMutable() {
-			s.get(sha1.Sum(bv), "other")                 // a mutable item must not be reachable by its value hash
+			s.get(sha1.Sum(bv), "other")               // a mutable item must not be reachable by its value hash
 			s.get(specTarget(it.k, nil, nil), "other") // nor by the key alone
 		}
 	case 1:
